@@ -20,13 +20,21 @@ UNIT = "librfn/mlog.c"
 HEAD_META = {}      # id(module) -> {"bits": width of log.head, "T": inductive bound head < T found for vmlog}
 
 
-def log_info(m):
+def log_info(m, strict=True):
     g = m.globals.get("log")
     if not g or not g.get("di_ty"):
         raise AnalysisError("anchor vanished: static struct mlog log")
     leaves = {p: (o, s, t) for p, o, s, t in m.di_leaves(g["di_ty"])}
     if "head" not in leaves or "line" not in leaves:
         raise AnalysisError("anchor vanished: log.head / log.line")
+    # further members: harmless if nothing depends on them; otherwise the log keeps state (a write cursor, a free count) that
+    # the rules stated over {head, line} know nothing about
+    from .purity import member_influences_protocol
+    tops = sorted(set(p.split(".")[0].split("[")[0] for p in leaves))
+    for f in tops:
+        if strict and f not in ("head", "line") and member_influences_protocol(m, ("log",), f, ("head", "line[].fmt", "line[].arg[]")):
+            raise AnalysisError("anchor vanished: struct mlog carries additional state (%s) that the log's operations depend on: its "
+                                "representation changed and the rules stated over {head, line} cannot decide this tree" % f)
     arr = m.di_array_info(leaves["line"][2])
     if not arr:
         raise AnalysisError("log.line is not an array")
@@ -676,6 +684,11 @@ def check_nice_clear(chk, m, info):
         ok = (fact is True and logged) or (fact is False and silent)
         chk.ob("L5.nice", pid, ok, "logs exactly when head < %d (test %s; %d call(s) of vmlog, %d line stores, %d head stores%s)"
                % (n, fact, len(calls), len(ls), len(hs), ", inline effect equals vmlog's below the wrap" if inline_log else ""), fn.loc, fn.name)
+    check_clear(chk, m, info)
+
+
+def check_clear(chk, m, info):
+    head_off, line_off, n, esz = info
     fc = m.fn("mlog_clear")
     chk.note_fn(fc)
     for p in paths.enumerate_paths(fc, m):
@@ -765,6 +778,17 @@ def check_readers(chk, m, info):
     for p in paths.enumerate_paths(fn, m):
         pid = "mlog_get_line path " + "->".join(b.lstrip("%") for b in p.blocks)
         gl = [e for e in p.events if e.kind == "call" and e.callee == "get_line"]
+        if not gl and p.ret == ("null",) and not [e for e in p.events if e.kind == "call" and not str(e.callee).startswith("llvm.")]:
+            # an index the reader would reject anyway, rejected up front: negative (it converts to a value >= 2^31 > head)
+            neg = False
+            for c, taken, inst in p.conds:
+                cc = strip_casts(c)
+                if cc[0] == "icmp" and strip_casts(cc[2]) == ("arg", 0) and cc[3][0] == "c" and cc[3][2] == 0 and \
+                        ((cc[1] == "slt" and taken) or (cc[1] == "sge" and not taken)):
+                    neg = True
+            chk.ob("L6.get-line", pid, neg, "NULL without consulting the log only for a negative index (which get_line rejects: as unsigned "
+                   "it is >= 2^31 > head)", p.ret_inst.loc, fn.name)
+            continue
         if len(gl) != 1 or gl[0].args[0] != ("arg", 0):
             chk.ob("L6.get-line", pid, False, "get_line must be called once with the caller's index unchanged "
                    "(a negative index then converts to a value >= head and is rejected)", fn.loc, fn.name)
@@ -1043,7 +1067,15 @@ def run(chk):
                         "single-threaded use (the log has no atomics)"]
     m = build.load_unit(UNIT)
     chk.note_unit(m)
-    info = log_info(m)
+    try:
+        info = log_info(m)
+    except AnalysisError as ae:
+        if "additional state" in str(ae):
+            # one rule does not depend on what the additional state means: whatever the readers consult must be reset by
+            # mlog_clear ("since the last mlog_clear")
+            chk.rule("L6", "mlog_clear resets every bookkeeping member any function of the log consults")
+            check_clear(chk, m, log_info(m, strict=False))
+        raise
     chk.extra["N"] = info[2]
     check_subscripts(chk, m, info)
     check_vmlog(chk, m, info)
